@@ -5,7 +5,8 @@ set_option linter.unusedVariables false
 
 A response is described by three tokens `<kind> <p1> <p2>`:
 `const re im` | `delay tau _` | `lowpass fc _` | `highpass fc _` | `rc fc _` (1/(1+i f/fc)) |
-`onesided re im` (value for f>0, 0 otherwise) | `gauss s _` (exp(-(f/s)^2)) | `cdelay tau a` (a·exp(-2πi f tau)).
+`onesided re im` (value for f>0, 0 otherwise) | `gauss s _` (exp(-(f/s)^2)) | `sinc T _` (sin(πfT)/(πfT), 1 at 0) |
+`invf f0 _` (|f|/(|f|+f0), 0 at 0) | `cdelay tau a` (a·exp(-2πi f tau)).
 A filter is `<forceReal 0|1> <vectorised 0|1> <kind> <p1> <p2>`.
 
 Requests:
@@ -26,6 +27,8 @@ def respOf (kind : String) (p1 p2 : Float) : Option (Float → Cx) :=
   | "rc" => some fun f => cdiv (1, 0) (1, f / p1)
   | "onesided" => some fun f => if f > 0 then (p1, p2) else (0, 0)
   | "gauss" => some fun f => (Rexp (-((f / p1) * (f / p1))), 0)
+  | "sinc" => some fun f => if f == 0 then (1, 0) else (Rsin (Rpi * f * p1) / (Rpi * f * p1), 0)
+  | "invf" => some fun f => if f == 0 then (0, 0) else (Rabs f / (Rabs f + p1), 0)
   | _ => none
 
 def boolOfTok (s : String) : Option Bool :=
